@@ -143,6 +143,10 @@ impl Substitute for syn::PatIdent {
 
 impl Superset for syn::PatOr {
     fn is_superset<'a>(&'a self, other: &'a Self) -> Option<Substitutions<'a>> {
+        if self.cases.len() != other.cases.len() {
+            return None;
+        }
+
         self.attrs.is_superset(&other.attrs)?.merge(
             zip(&self.cases, &other.cases)
                 .try_fold(Substitutions::default(), |acc, (x1, x2)| {
@@ -251,6 +255,10 @@ impl Substitute for syn::PatStruct {
 
 impl Superset for syn::PatSlice {
     fn is_superset<'a>(&'a self, other: &'a Self) -> Option<Substitutions<'a>> {
+        if self.elems.len() != other.elems.len() {
+            return None;
+        }
+
         self.attrs.is_superset(&other.attrs)?.merge(
             zip(&self.elems, &other.elems)
                 .try_fold(Substitutions::default(), |acc, (x1, x2)| {
@@ -283,6 +291,10 @@ impl Substitute for syn::PatSlice {
 
 impl Superset for syn::PatTuple {
     fn is_superset<'a>(&'a self, other: &'a Self) -> Option<Substitutions<'a>> {
+        if self.elems.len() != other.elems.len() {
+            return None;
+        }
+
         self.attrs.is_superset(&other.attrs)?.merge(
             zip(&self.elems, &other.elems)
                 .try_fold(Substitutions::default(), |acc, (x1, x2)| {
